@@ -22,10 +22,11 @@ import (
 // ---- scenario ----------------------------------------------------------------------------------------
 
 // C14Op is one operation of a writer.
-//   upd   : UpdateFullStatus: own counter in ExtraData[writer]++, StdoutSize++, Detail = decimal of the new StdoutSize
-//   basic : UpdateBasicStatus(State, Detail-from-pool, Size) - overwrites the three basic fields (seq mode only)
-//   load  : Load and check the record
-//   save  : Save a self-consistent record (save mode only)
+//
+//	upd   : UpdateFullStatus: own counter in ExtraData[writer]++, StdoutSize++, Detail = decimal of the new StdoutSize
+//	basic : UpdateBasicStatus(State, Detail-from-pool, Size) - overwrites the three basic fields (seq mode only)
+//	load  : Load and check the record
+//	save  : Save a self-consistent record (save mode only)
 type C14Op struct {
 	K     string `json:"k"`
 	Pause int    `json:"p,omitempty"` // inside the callback: 0 none, 1 Gosched, 2 sleep 200us, 3 sleep 2ms
@@ -49,12 +50,12 @@ type C14Scn struct {
 var c14Details = []string{"Unit Created", "Running", "Restarting", "Finished"}
 
 type c14Result struct {
-	Writer   int      `json:"w"`
-	Updates  int      `json:"u"`
-	Loads    int      `json:"l"`
-	Problems []string `json:"problems,omitempty"`
-	StartNs  int64    `json:"start"`
-	EndNs    int64    `json:"end"`
+	Writer   int                        `json:"w"`
+	Updates  int                        `json:"u"`
+	Loads    int                        `json:"l"`
+	Problems []string                   `json:"problems,omitempty"`
+	StartNs  int64                      `json:"start"`
+	EndNs    int64                      `json:"end"`
 	Rec      *workceptor.StatusFileData `json:"rec,omitempty"` // seq mode: what a load returned
 }
 
